@@ -86,6 +86,68 @@ def e1e2(R, spec, cfg, tag, canon, exe, env, D, budget, walks, L, seed, timeout=
     return stats
 
 
+def e3_validate(R, tracespec, cfg, trace, tag, timeout=900, heap="8g"):
+    """TLC validates an ndjson trace recorded from the real code. Accepted iff the postcondition holds (every line
+    consumed). On rejection the first unmatched line is reported with the matched prefix length."""
+    n = sum(1 for _ in open(trace))
+    d = vplib.rundir("e3." + tag)
+    res = vplib.tlc(tracespec, cfg, workers=1, timeout=timeout, metadir=os.path.join(d, "md"), env={"TRACE": trace}, heap=heap)
+    vplib.cleanup(d)
+    R.cmds.append("TRACE=<%s, %d lines> %s" % (os.path.basename(trace), n, res["cmd"]))
+    R.extra.setdefault("trace_runs", []).append({"what": tag, "lines": n, "matched": max(res["depth"] - 1, 0),
+                                                 "wall_s": round(res["wall"], 1)})
+    R.states += res["distinct"]
+    R.transitions += res["generated"]
+    if res["rc"] == 124:
+        raise Broken("TLC timeout validating trace " + tag)
+    out = res["out"]
+    if res["violated"] and res["violated"] not in ("deadlock",):
+        k = max(res["depth"] - 1, 0)
+        rp = save_trace_reject(R, trace, tag, k, "monitor %s violated" % res["violated"])
+        R.mismatch(tag + ":trace-monitor-" + res["violated"], rp, "monitor violated after %d trace lines" % k)
+        return False
+    if "Postcondition" in out and "is false" in out:
+        k = max(res["depth"] - 1, 0)   # lines matched
+        lines = open(trace).read().splitlines()
+        bad = lines[k] if k < len(lines) else "<eof>"
+        act = "?"
+        try:
+            act = json.loads(bad).get("a", "?")
+        except Exception:
+            pass
+        rp = save_trace_reject(R, trace, tag, k, "no spec step explains line %d" % (k + 1))
+        R.mismatch(tag + ":trace-reject-" + str(act), rp, "trace line %d not explained by the spec: %s" % (k + 1, bad[:200]))
+        return False
+    if not ("No error has been found" in out):
+        raise Broken("TLC trace validation failed (%s):\n%s" % (tag, out[-3000:]))
+    R.traces += 1
+    R.evaluations += n
+    return True
+
+
+def save_trace_reject(R, trace, tag, k, why):
+    rp = vplib.replay_path(R.prop, tag + ".trace")
+    lines = open(trace).read().splitlines()
+    with open(rp, "w") as f:
+        f.write("# %s; matched prefix = %d lines; context follows (last 15 matched + offending line)\n" % (why, k))
+        for i in range(max(0, k - 15), min(len(lines), k + 1)):
+            f.write("%d: %s\n" % (i + 1, lines[i]))
+    return rp
+
+
+def run_tracer(R, exe, args, env, tag, timeout=600):
+    rc, out, wall = vplib.sh([exe] + [str(a) for a in args], timeout=timeout, env=env)
+    if rc != 0:
+        if "Sanitizer" in out or "runtime error" in out:
+            rp = vplib.replay_path(R.prop, tag + ".tracer-crash")
+            open(rp, "w").write(out[-6000:])
+            R.mismatch(tag + ":sanitizer-in-trace-run", rp, "sanitizer report while recording a trace")
+            return None
+        raise Broken("tracer failed (%s) rc=%s: %s" % (tag, rc, out[-2000:]))
+    m = re.search(r"^TRACE (\{.*\})$", out, re.M)
+    return json.loads(m.group(1)) if m else {}
+
+
 # ------------------------------------------------------------------------------------------
 # C12 - queue / stack / list
 
@@ -118,4 +180,57 @@ def c12(prop, tier, seed):
     R.assumptions = ["containers are not mutated behind a live iterator's back (precondition)",
                      "elements are driver-owned objects; destructor = counter", "ASan/UBSan attached to every replay",
                      "bounds: 3 elements, length <= 3"]
+    return R.finish()
+
+
+# ------------------------------------------------------------------------------------------
+# C10 - reference counted blocks
+
+def mem_canon(st):
+    parts = []
+    for i, s in enumerate(st["st"]):
+        if s == "live":
+            parts.append("L%da1p1" % st["size"][i])
+        else:
+            parts.append("D")
+    return vplib.ints(st["obs"]), ";".join(parts)
+
+
+def tlc_only(R, spec, cfg, tag, workers=8, timeout=900):
+    res = vplib.tlc(spec, cfg, workers=workers, timeout=timeout)
+    vplib.tlc_require_ok(res, tag)
+    R.add_tlc(res, tag)
+    if res["violated"]:
+        rp = vplib.replay_path(R.prop, tag + ".tlc")
+        with open(rp, "w") as f:
+            f.write(res["out"][-20000:])
+        R.mismatch(tag + ":model-" + res["violated"], rp, "TLC: %s violated in the bounded model" % res["violated"])
+    return res
+
+
+@check("C10")
+def c10(prop, tier, seed):
+    R = Result(prop, tier, seed)
+    exe = vplib.build("drv_mem", ["utils", "mem"], ["drv_mem.c"])
+    quick = tier == "quick"
+    tlc_only(R, "Mem.tla", "Mem_mc.cfg", "Mem_mc")
+    D = 6 if quick else 8
+    e1e2(R, "Mem.tla", "Mem_e2.cfg", "Mem_e2", mem_canon, exe, {"VP_NBLOCKS": "3"}, D,
+         300000 if quick else 20000000, 2000 if quick else 200000, 30, seed)
+    # E3: every size 0..N (all residues mod 16) and a random population of 8 blocks, validated by TLC against MemTrace
+    d = vplib.rundir("c10.e3")
+    tr = os.path.join(d, "mem.ndjson")
+    info = run_tracer(R, exe, ["--trace", tr, seed, 4000 if quick else 60000, 1024 if quick else 6000], {}, "MemTrace")
+    if info is not None:
+        if info.get("outstanding", 0) != 0:
+            R.mismatch("MemTrace:leak", tr, "allocator ledger: %s blocks outstanding at the end of the trace run" % info["outstanding"])
+        e3_validate(R, "MemTrace.tla", "MemTrace.cfg", tr, "MemTrace")
+        lines = open(tr).read().splitlines()
+        R.samples.append({"trace_excerpt": [json.loads(x) for x in lines[7:10]]})
+    vplib.cleanup(d)
+    R.rule = ("programs = edge sequences of the dumped TLC graph of Mem.tla (3 blocks, nested destructors to depth 3): all "
+              "maximal paths of length <= %d, an edge cover, seeded random walks; non-trivial = a block that was re-referenced "
+              "or owns/is a nested block gets unreferenced; distinct by action-label sequence" % D)
+    R.assumptions = ["references are dropped only by their owner (precondition)", "allocator = ledger installed as memhook",
+                     "ASan/UBSan attached", "bounds: 3 blocks, <= 3 references each"]
     return R.finish()
